@@ -20,7 +20,7 @@ import (
 )
 
 func TestMain(m *testing.M) {
-	vstat.Rule("A prior history of 0-8 pool operations (add, re-weight incl. to 0, remove) on a fresh RoundRobin ends in a pool of 1-6 servers with weights from mixed classes (small, common factor, very unequal up to 4096/65535, zeros); then a generated warm-up offset and 2W..3W+r selections through NextServer or ServeHTTP. Oracle (from the weights alone): with g=gcd, W=sum/g, every window of W consecutive selections contains server i exactly w_i/g times; zero-weight servers never; all-zero/empty pool => error and no forwarded request. Concurrent variant: G goroutines make k*W selections in total, the multiset must be exactly k*w_i/g. Non-trivial: >=2 servers with distinct positive weights, or a zero weight, or g>1, or a non-empty prior history with a re-weight/remove, or an offset that is not a multiple of W. Later additions: a sixth of the pools scaled by a common factor up to 5*2^52 (rotations too long to run are checked through the per-rotation upper bound), a twelfth with 250-330 members of which 1-4 have a positive weight, a quarter of the balancers with sticky sessions on and every request carrying an unusable affinity cookie.")
+	vstat.Rule("A prior history of 0-8 pool operations (add, re-weight incl. to 0, remove) on a fresh RoundRobin ends in a pool of 1-6 servers with weights from mixed classes (small, common factor, very unequal up to 4096/65535, zeros); then a generated warm-up offset and 2W..3W+r selections through NextServer or ServeHTTP. Oracle (from the weights alone): with g=gcd, W=sum/g, every window of W consecutive selections contains server i exactly w_i/g times; zero-weight servers never; all-zero/empty pool => error and no forwarded request. Concurrent variant: G goroutines make k*W selections in total, the multiset must be exactly k*w_i/g. Non-trivial: >=2 servers with distinct positive weights, or a zero weight, or g>1, or a non-empty prior history with a re-weight/remove, or an offset that is not a multiple of W. Later additions: a sixth of the pools scaled by a common factor up to 5*2^52 (rotations too long to run are checked through the per-rotation upper bound), a twelfth with 250-330 members of which 1-4 have a positive weight, a quarter of the balancers with sticky sessions on and every request carrying an unusable affinity cookie. TestC01_LongRun (thorough tier only): 1503 servers, three of them live with weights 3:2:1 behind position 508, 6.5 million NextServer calls (about 4.9e9 sweep steps); sliding window of W=6: counts exactly 3,2,1 at every offset.")
 	vstat.Main(m.Run)
 }
 
@@ -699,4 +699,57 @@ func concurrentCase(t *rapid.T) {
 		}
 		vstat.Case(fmt.Sprintf("conc|%v|%d|%v", model, k, parts), len(model) >= 2, []string{"concurrent-callers"}, map[string]any{"pool": fmt.Sprint(model), "goroutines": G, "split": fmt.Sprint(parts), "rotations": k})
 	}
+}
+
+// TestC01_LongRun (thorough tier only): the statement holds for every window offset, also after
+// billions of steps of the balancer's internal sweep. A pool of three live servers (3:2:1) among
+// 1500 drained ones makes every selection cost some 750 sweep steps, so 6.5 million selections
+// take the sweep past 2^32 steps in seconds; every window of W = 6 consecutive selections along
+// the way must hold the three servers 3, 2 and 1 times.
+func TestC01_LongRun(t *testing.T) {
+	if os.Getenv("VERIF_TIER") != "thorough" {
+		t.Skip("thorough tier only")
+	}
+	rr, err := roundrobin.New(http.NotFoundHandler())
+	if err != nil {
+		t.Fatal(err)
+	}
+	want := map[string]int{}
+	live := map[int]int{600: 3, 900: 2, 1444: 1} // (all behind position 2^32 mod 1503 = 508)
+	for i := 0; i < 1503; i++ {
+		u := mustURL(fmt.Sprintf("http://n%04d.example:8080", i))
+		w := live[i]
+		if err := rr.UpsertServer(u); err != nil { // (a new server registered with weight 0 gets the default weight: register, then set the weight)
+			t.Fatal(err)
+		}
+		if err := rr.UpsertServer(u, roundrobin.Weight(w)); err != nil {
+			t.Fatal(err)
+		}
+		if w > 0 {
+			want[u.Host] = w
+		}
+	}
+	const W = 6
+	var ring [W]string
+	counts := map[string]int{}
+	total := 6_500_000
+	for i := 0; i < total; i++ {
+		u, err := rr.NextServer()
+		if err != nil {
+			t.Fatalf("selection %d failed: %v", i, err)
+		}
+		if i >= W {
+			counts[ring[i%W]]--
+		}
+		ring[i%W] = u.Host
+		counts[u.Host]++
+		if i >= W-1 {
+			for h, w := range want {
+				if counts[h] != w {
+					t.Fatalf("selections %d..%d (about %d sweep steps since the last pool change): %s chosen %d times, want %d; window %v", i-W+1, i, int64(i)*751, h, counts[h], w, ring)
+				}
+			}
+		}
+	}
+	vstat.Case("longrun", true, []string{"rotation-exact-past-2^32-sweep-steps"}, map[string]any{"selections": total, "pool": "3 live (3:2:1) among 1500 drained"})
 }
